@@ -12,6 +12,9 @@
 //!     are scripted per node (u128 for the trace id, u64 for the span id; `none` and `0` allowed);
 //!   * incoming ids are placed in the context by an outer `Frame::push` as typed `TraceId`/`SpanId`, as `u128`/`u64`,
 //!     as hex strings, or malformed.
+//!   * `(panic)` panics at that position of a span body (sync paths, or inside a poll of an async path) and unwinds
+//!     through the real guards to the nearest `(catch ..)` = `catch_unwind`; what runs after the catch point on the
+//!     same thread is compared like everything else (the unwound spans still complete once, inside their frames);
 //! Output: one record per emitted event / completed span / `SpanCtxt::current` reading — kind, tag (event id, ambient
 //! node id, observation id), trace id, span parent, span id — sorted (emission order across interleaved tasks is not
 //! what C04 constrains). Case format: lean/EmitModel/Driver/C04.lean.
@@ -193,6 +196,19 @@ enum T {
     Exec(Vec<usize>, Arc<Vec<T>>),
     Yield,
     Par(Vec<Arc<Vec<T>>>, Vec<usize>),
+    Panic,
+    Catch(Arc<Vec<T>>),
+}
+
+/// does running this raise a panic that leaves it (only used to reject cases outside the modelled usage)
+fn panics(t: &T) -> bool {
+    match t {
+        T::Panic => true,
+        T::Catch(_) => false,
+        T::Span { children, .. } | T::Hop(_, children) | T::Exec(_, children) => children.iter().any(panics),
+        T::Par(bs, _) => bs.iter().any(|b| b.iter().any(panics)),
+        _ => false,
+    }
 }
 
 const NTHREADS: usize = 3;
@@ -300,8 +316,14 @@ fn parse_t(s: &Sexp, in_async: bool) -> Option<T> {
             if st != "sched" {
                 return None;
             }
+            // a panic leaving a branch would drop the sibling futures outside their frames: not modelled
+            if bs.iter().any(|b| b.iter().any(panics)) {
+                return None;
+            }
             T::Par(bs, es.iter().map(|e| e.as_usize()).collect::<Option<Vec<_>>>()?)
         }
+        ("panic", 0) => T::Panic,
+        ("catch", _) => T::Catch(parse_list(a, false)?),
         _ => return None,
     })
 }
@@ -312,7 +334,7 @@ fn collect_verdicts(ts: &[T], out: &mut std::collections::HashMap<u64, bool>) ->
     for t in ts {
         let ok = match t {
             T::Span { id, en, children, .. } => *out.entry(*id).or_insert(*en) == *en && collect_verdicts(children, out),
-            T::Hop(_, c) | T::Exec(_, c) => collect_verdicts(c, out),
+            T::Hop(_, c) | T::Exec(_, c) | T::Catch(c) => collect_verdicts(c, out),
             T::Par(bs, _) => bs.iter().all(|b| collect_verdicts(b, out)),
             _ => true,
         };
@@ -418,6 +440,10 @@ fn run_sync(t: &T, actors: &Arc<Actors>) {
                     break;
                 }
             }
+        }
+        T::Panic => panic!("scripted panic"),
+        T::Catch(children) => {
+            let _ = std::panic::catch_unwind(std::panic::AssertUnwindSafe(|| run_sync_list(children, actors)));
         }
         T::Yield | T::Par(..) => unreachable!("validated at parse time"),
     }
@@ -672,7 +698,9 @@ impl<'a> Gen<'a> {
         Sexp::tagged(tag, items)
     }
 
-    fn list(&mut self, depth: usize, in_async: bool, fanout: usize) -> Vec<Sexp> {
+    /// A body. `in_catch`: a catch point encloses it (panics welcome); `no_panic`: below a `par` branch.
+    /// Returns (items, whether the body panics) — nothing is generated after a panicking item.
+    fn list(&mut self, depth: usize, in_async: bool, fanout: usize, in_catch: bool, no_panic: bool) -> (Vec<Sexp>, bool) {
         let mut out = Vec::new();
         let n = 1 + self.rng.usize(fanout);
         for _ in 0..n {
@@ -681,7 +709,8 @@ impl<'a> Gen<'a> {
             }
             self.budget -= 1;
             let deep = depth < self.max_depth;
-            let item = match self.rng.below(20) {
+            let mut p = false;
+            let item = match self.rng.below(23) {
                 0..=3 => {
                     let own = if self.rng.chance(1, 8) { self.id_props("props", 10) } else { Sexp::tagged("props", vec![]) };
                     Sexp::tagged("event", vec![Sexp::num(self.fresh()), own])
@@ -698,34 +727,49 @@ impl<'a> Gen<'a> {
                     let en = Sexp::bool(!self.rng.chance(1, 4));
                     let (rt, rs) = (self.trace_reading(), self.span_reading());
                     let user = if matches!(kind, "direct" | "adirect") { self.id_props("props", 2) } else { Sexp::tagged("props", vec![]) };
-                    let children = self.list(depth + 1, child_async, 4);
+                    let (children, cp) = self.list(depth + 1, child_async, 4, in_catch, no_panic);
+                    p = cp;
                     Sexp::tagged("span", [vec![Sexp::num(id), Sexp::atom(kind), en, rt, rs, user], children].concat())
                 }
                 15 if deep => {
                     let t = self.rng.below(NTHREADS as u64);
-                    let children = self.list(depth + 1, false, 3);
+                    let (children, cp) = self.list(depth + 1, false, 3, in_catch, no_panic);
+                    p = cp;
                     Sexp::tagged("hop", [vec![Sexp::num(t)], children].concat())
                 }
                 16 | 17 if deep && !in_async => {
                     let nt = 1 + self.rng.usize(3);
                     let threads = (0..nt).map(|_| Sexp::num(self.rng.below(NTHREADS as u64))).collect();
-                    let children = self.list(depth + 1, true, 4);
+                    let (children, cp) = self.list(depth + 1, true, 4, in_catch, no_panic);
+                    p = cp;
                     Sexp::tagged("exec", [vec![Sexp::tagged("threads", threads)], children].concat())
                 }
                 16 if in_async => Sexp::tagged("yield", vec![]),
                 17 | 18 if deep && in_async => {
                     let nb = 2 + self.rng.usize(2);
-                    let branches: Vec<Sexp> = (0..nb).map(|_| Sexp::tagged("branch", self.list(depth + 1, true, 3))).collect();
+                    let branches: Vec<Sexp> = (0..nb).map(|_| Sexp::tagged("branch", self.list(depth + 1, true, 3, false, true).0)).collect();
                     let ns = self.rng.usize(8);
                     let sched = (0..ns).map(|_| Sexp::num(self.rng.below(nb as u64))).collect();
                     Sexp::tagged("par", vec![Sexp::list(branches), Sexp::tagged("sched", sched)])
+                }
+                // a catch point: its body usually panics somewhere below; what follows it is compared
+                19 | 20 if deep => {
+                    let (children, _) = self.list(depth + 1, false, 4, true, no_panic);
+                    Sexp::tagged("catch", children)
+                }
+                21 if !no_panic && (in_catch || self.rng.chance(1, 12)) => {
+                    p = true;
+                    Sexp::tagged("panic", vec![])
                 }
                 _ if in_async && self.rng.chance(1, 2) => Sexp::tagged("yield", vec![]),
                 _ => Sexp::tagged("event", vec![Sexp::num(self.fresh()), Sexp::tagged("props", vec![])]),
             };
             out.push(item);
+            if p {
+                return (out, true);
+            }
         }
-        out
+        (out, false)
     }
 }
 
@@ -737,7 +781,11 @@ fn gen_c04(rng: &mut Rng, tier: Tier, n: usize) -> Vec<String> {
         let incoming = g.id_props("incoming", 5);
         let mut items = Vec::new();
         while g.budget > 0 {
-            items.extend(g.list(0, false, 4));
+            let (b, p) = g.list(0, false, 4, false, false);
+            items.extend(b);
+            if p {
+                break;
+            }
         }
         out.push(Sexp::tagged("c04", vec![incoming, Sexp::list(items)]).to_string());
     }
